@@ -256,6 +256,24 @@ func vGenFollower(kind, depth, maxDepth int) (Field, string, *vJ) {
 }
 
 func vAddMember(o *vJ, f Field, k string, w *vJ) {
+	// what the text layout shows without quotes at the top level: string fields, marshal-error
+	// texts and non-finite floats
+	switch f.Type {
+	case ValueTypeString:
+		w.unq = true
+	case ValueTypeFloat64:
+		w.unq = w.kind == 's'
+	case ValueTypeReflect:
+		if _, isStr := f.Any.(string); !isStr && w.kind == 's' {
+			w.unq = true
+		}
+	case ValueTypeFromMap:
+		for _, m := range w.vals {
+			if m.kind == 's' {
+				m.unq = true
+			}
+		}
+	}
 	if f.Type == ValueTypeFromMap {
 		o.keys = append(o.keys, w.keys...)
 		o.vals = append(o.vals, w.vals...)
